@@ -1,10 +1,11 @@
 import Bma400.Proto
+import Bma400.Judge
 open Bma400 Proto
 
 partial def loop (h : IO.FS.Stream) (out : IO.FS.Stream) (f : String → String) : IO Unit := do
   let line ← h.getLine
   if line.isEmpty then return ()
-  let l := line.trimAscii.toString
+  let l := (line.dropEndWhile (fun c => c == '\n' || c == '\r')).toString
   if !l.isEmpty then out.putStrLn (f l)
   loop h out f
 
@@ -18,4 +19,6 @@ def main (args : List String) : IO UInt32 := do
   let stdout ← IO.getStdout
   match args with
   | ["run"] => loop stdin stdout runLine; return 0
+  | ["judge"] => loop stdin stdout Judge.judgeLine; return 0
+  | ["accs"] => loop stdin stdout Judge.accsLine; return 0
   | _ => IO.eprintln "usage: bma400model run < cases"; return 2
